@@ -199,20 +199,7 @@ pub fn run_c08(args: &Args) {
         ],
         "F8c",
     );
-    // found by the trace-level proof (Props/C19 `stale_index_drives_out_of_range`): `Swapchain::set` moves to the new
-    // segment and cycle but leaves `cur_idx` as it was until the next clock update; the output is read in between
-    run_seq_c19(
-        &mut out,
-        &[
-            Step::Send(Spec::Foci { n: 1, seg: 0, tr: Some((0xFF, 0)), rep: 0xFFFF, div: 40, ss: 21760, size: 65536, seed: 2 }),
-            Step::Send(Spec::Foci { n: 8, seg: 1, tr: Some((0xFF, 0)), rep: 0xFFFF, div: 40, ss: 21760, size: 2, seed: 3 }),
-        ],
-        &[30_000_000_000, 0],
-        "stale-index",
-    );
-    // `zero_sound_speed_reachable`: a device sound speed below 7.8 mm/s is packed as 0; the firmware divides by it
-    run_seq_c19(&mut out, &[Step::Send(Spec::Foci { n: 1, seg: 0, tr: Some((0xFF, 0)), rep: 0xFFFF, div: 40, ss: 0, size: 2, seed: 4 })], &[1_000_000], "zero-ss");
-    out.count_n("corpus", 5);
+    out.count_n("corpus", 3);
 
     // bounded-exhaustive: lax start, then every sequence of `depth` letters
     let depth = 3;
@@ -288,6 +275,15 @@ fn c19_alphabet(t_now: u64) -> Vec<Step> {
         v.push(Step::Send(Spec::Foci { n: 2, seg, tr: None, rep: 1, div: 512, ss: 21760, size: 3, seed: 61 }));
         v.push(Step::Send(Spec::GainStm { mode: 0, seg, tr: None, rep: 2, div: 300, size: 3, seed: 62 }));
     }
+    // maximal sizes: every write page of both memories is used up to its last entry (the shared write-page registers
+    // are left at their highest values)
+    v.extend([
+        Step::Send(Spec::GainStm { mode: 0, seg: 1, tr: None, rep: 0xFFFF, div: 300, size: 1024, seed: 63 }),
+        Step::Send(Spec::GainStm { mode: 2, seg: 0, tr: Some((0xFF, 0)), rep: 0xFFFF, div: 300, size: 1024, seed: 64 }),
+        Step::Send(Spec::Foci { n: 1, seg: 0, tr: None, rep: 0xFFFF, div: 512, ss: 21760, size: 65536, seed: 65 }),
+        Step::Send(Spec::Foci { n: 8, seg: 1, tr: Some((0xFF, 0)), rep: 0xFFFF, div: 512, ss: 21760, size: 8192, seed: 66 }),
+        Step::Send(Spec::Mod { seg: 1, tr: None, rep: 0xFFFF, div: 10, n: 65536, seed: 67 }),
+    ]);
     v.extend([
         Step::Send(Spec::Gain { seg: 1, tr: Some((0xFF, 0)), seed: 9 }),
         Step::Send(Spec::Gain { seg: 0, tr: None, seed: 9 }),
